@@ -48,6 +48,14 @@ def edgeMesh (st : State α) (start end_ : Pt3 α) : Option (Scad α) := do
   let c := (c.applyMatrix m).translate start
   pure (Scad.node (.polyhedron c.points c.faces 1) [])
 
+/-- the mesh of one 2D edge, as `add_lines2d` builds it: the frame of the edge lifted to z = 0, the cylinder
+as long as the *2D* distance (over the reals that is `edgeMesh` of the lifted end points, `C18.edgeMesh2_eq`) -/
+def edgeMesh2 (st : State α) (start end_ : Pt2 α) : Option (Scad α) := do
+  let m := Mt4.lookAtLh (start.asPt3 0) (end_.asPt3 0) ⟨0, 0, 1⟩
+  let c ← Dim3.Polyhedron.cylinder st.edgeRadius (Pt2.sub end_ start).len st.segments
+  let c := (c.applyMatrix m).translate (start.asPt3 0)
+  pure (Scad.node (.polyhedron c.points c.faces 1) [])
+
 def edges (ps : List β) : List (β × β) := ps.zip (ps.drop 1)
 
 def white : List Char := c!"White"
@@ -66,8 +74,9 @@ def addPt3s (st : State α) (ps : List (Pt3 α)) (c : List Char) : State α :=
 def addLines3d (st : State α) (es : List (Pt3 α × Pt3 α)) (c : List Char) : Option (State α) := do
   let meshes ← es.mapM fun (a, b) => edgeMesh st a b
   pure (pushGroup st (colorA c meshes))
-def addLines2d (st : State α) (es : List (Pt2 α × Pt2 α)) (c : List Char) : Option (State α) :=
-  addLines3d st (es.map fun (a, b) => (a.asPt3 0, b.asPt3 0)) c
+def addLines2d (st : State α) (es : List (Pt2 α × Pt2 α)) (c : List Char) : Option (State α) := do
+  let meshes ← es.mapM fun (a, b) => edgeMesh2 st a b
+  pure (pushGroup st (colorA c meshes))
 
 def addQuad2 (st : State α) (s c e : Pt2 α) (seg : Nat) : Option (State α) := do
   let pts := Dim2.quadraticBezier s c e seg
